@@ -156,3 +156,49 @@ emit(ok, v, ok2, #t)
 	verifAssert(vhTraceIs(run.trace, rt.BoolValue(!fails), vhInt(a), rt.BoolValue(true), vhInt(3)), "values-transferred")
 	verifAssert(verifLiveGoroutines() == 0, "no-goroutine-left-behind")
 }
+
+// coroutine.close in every state a closable coroutine can be in: never
+// resumed, suspended at a yield, finished, failed.  Afterwards the coroutine
+// is dead, cannot be resumed, and its goroutine is gone.
+func VerifH_C09_close_in_any_state() {
+	verifEnableRaceDetector()
+	run := vhNewRun()
+	a := nondetInt64("a")
+	state := int64(verifChoose("state", 4))
+	_, err := run.lua(`
+local a, state = ...
+local co = coroutine.create(function(x)
+  if state == 1 then coroutine.yield(x) end
+  if state == 3 then error(x, 0) end
+  return x
+end)
+if state ~= 0 then emit("r", coroutine.resume(co, a)) end
+emit("close", coroutine.close(co))
+emit("status", coroutine.status(co))
+emit("resume-after-close", (coroutine.resume(co)))
+emit("close-again", (coroutine.close(co)))
+`, vhInt(a), vhInt(state))
+	verifAssert(err == nil, "script-runs")
+	T, F := rt.BoolValue(true), rt.BoolValue(false)
+	var want []rt.Value
+	switch state {
+	case 1, 2:
+		want = append(want, vhStr("r"), T, vhInt(a))
+	case 3:
+		want = append(want, vhStr("r"), F, vhInt(a))
+	}
+	if state == 3 {
+		// closing a coroutine that died with an error returns false and the error
+		want = append(want, vhStr("close"), F, vhInt(a))
+	} else {
+		want = append(want, vhStr("close"), T)
+	}
+	want = append(want, vhStr("status"), vhStr("dead"), vhStr("resume-after-close"), F)
+	got := run.trace
+	okPrefix := len(got) == len(want)+2
+	for i := 0; okPrefix && i < len(want); i++ {
+		okPrefix = vhSame(got[i], want[i])
+	}
+	verifAssert(okPrefix, "close-trace-as-the-manual-prescribes")
+	verifAssert(verifLiveGoroutines() == 0, "closed-coroutine-leaves-no-goroutine")
+}
